@@ -11,7 +11,8 @@ FUNCTIONS = [{'q': 'uxarray.grid.connectivity.close_face_nodes',
     'uxarray.grid.connectivity._populate_edge_node_connectivity',
     'uxarray.grid.connectivity._populate_face_edge_connectivity',
     'uxarray.grid.connectivity._populate_n_nodes_per_face',
-    'uxarray.grid.slice._slice_face_indices']
+    'uxarray.grid.slice._slice_face_indices',
+    'uxarray.grid.connectivity.get_face_node_partitions@frame']
 STANDINS = ["edges", "consumers"]
 ASSUMPTIONS = []
 EXPLANATION = "builders under contract + bounded stand-in (catalogue meshes, exhaustive small tables, access orders)"
